@@ -149,8 +149,9 @@ End Safe.
 (* binary64 instance *)
 Local Open Scope float_scope.
 
-(* 2^e as a binary64 number (exact for -1074 <= e <= 1023) *)
-Definition pow2 (e : Z) : float := Z.ldexp 1 e.
+(* 2^e as a binary64 number, for -1022 <= e <= 1023 (normal range): mantissa 2^52, exponent e - 52.
+   (`Z.ldexp 1 e` is the same number; this form keeps the proofs free of the Uint63 axioms.) *)
+Definition pow2 (e : Z) : float := SF2Prim (S754_finite false 4503599627370496 (e - 52)).
 (* x * c and x * c * c with c = 2^k: what the harness relation rel17scale computes *)
 Definition fscale (k : Z) (x : float) : float := x * pow2 k.
 Definition fscale2 (k : Z) (x : float) : float := x * pow2 k * pow2 k.
